@@ -26,7 +26,8 @@ def parseSub (descend : Descend) (c : Cmd) (name : Bytes) (rest : List Bytes) (k
   match c.findSubcommand name with
   | none => some (p, .error (.panic "find_subcommand: expect"))
   | some sc =>
-    let p0 : P := if keep then { curIdx := p.curIdx, flagSubAt := p.flagSubAt, flagSubSkip := p.flagSubSkip } else {}
+    let p0 : P := if keep then { curIdx := p.curIdx, flagSubAt := p.flagSubAt, flagSubSkip := p.flagSubSkip,
+                                  flagSubConsumed := p.flagSubConsumed } else {}
     match descend sc rest p0 with
     | none => none
     | some (ps, .error e) =>
